@@ -7,7 +7,9 @@ the ~Other and data parts) composed with the whole real LASFile.read
 engine with lasio's default items, a few concrete items and - in one of ~V, ~W, ~C, ~P - one
 symbolic item next to a concrete companion that is narrower or wider than it.  The symbolic
 item's field lengths are fixed per task (exhaustive shape case-split), all its characters are
-solver variables; version, mnemonic_case and item order are symbolic choices.
+solver variables; version, mnemonic_case and item order are symbolic choices.  The object the
+reader returns (session names case-mapped, values typed by the reader) is then written and read
+a second time and compared with the same expectation.
 """
 import numpy as np
 from symlas import core, z
@@ -44,7 +46,7 @@ ASSUMPTIONS = [
     "a blank mnemonic comes with fields that contain no period",
     "float formatting/parsing of the concrete numeric values is numpy/libc code (trusted)",
 ]
-WITNESS_TARGETS = ["STRT-is-the-widest-well-entry", "symbolic-item-is-widest", "symbolic-item-is-narrowest", "version-1.2-well-order", "empty-value-with-unit-becomes-0", "blank-mnemonic", "case-mapped-mnemonic", "second-NULL-item-written-and-read-back"]
+WITNESS_TARGETS = ["STRT-is-the-widest-well-entry", "symbolic-item-is-widest", "symbolic-item-is-narrowest", "version-1.2-well-order", "empty-value-with-unit-becomes-0", "blank-mnemonic", "case-mapped-mnemonic", "second-NULL-item-written-and-read-back", "second-cycle-compared"]
 def _dup_steer_sym(i):
     """a second STRT/STOP/STEP, or a second NULL while the data hold a NaN (the writer then looks NULL up by name)"""
     if i["section"] != "W" or not isinstance(i["m"], (str, SymStr)):
@@ -58,7 +60,24 @@ def _dup_steer_conc(i):
     return i["section"] == "W" and (i["m"] in ("STRT", "STOP", "STEP") or (i["m"] == "NULL" and not i.get("no_nan", False)))
 
 
-EXCLUSIONS = {"well_item_duplicating_STRT_STOP_STEP_NULL": (_dup_steer_sym, _dup_steer_conc)}
+def _case_dup_sym(i):
+    """read with mnemonic_case upper/lower, a differently-cased spelling of STRT/STOP/STEP (or of NULL, NaN in the
+    data) becomes a duplicate of the standard item in the object the reader returns: the same unwritable state"""
+    if i["section"] != "W" or not isinstance(i["m"], (str, SymStr)) or i["shape"][0] != 4:
+        return False
+    mu = SymStr.lift(SymStr.lift(i["m"]).upper())
+    nn = i.get("no_nan", False)
+    mc = i["mnemonic_case"]
+    mapped = z.Not(z.eq_i(mc.e, 0)) if hasattr(mc, "e") else (mc != 0)
+    return z.And(mapped, z.Or([mu.eq_expr(n) for n in ("STRT", "STOP", "STEP")] + [z.And(mu.eq_expr("NULL"), z.Not(nn.e if hasattr(nn, "e") else bool(nn)))]))
+
+
+def _case_dup_conc(i):
+    return i["section"] == "W" and i["mnemonic_case"] != 0 and (i["m"].upper() in ("STRT", "STOP", "STEP") or (i["m"].upper() == "NULL" and not i.get("no_nan", False)))
+
+
+EXCLUSIONS = {"well_item_duplicating_STRT_STOP_STEP_NULL": (_dup_steer_sym, _dup_steer_conc),
+              "well_item_case_mapped_onto_STRT_STOP_STEP_NULL": (_case_dup_sym, _case_dup_conc)}
 NUMERIC = [("NI", "u", 7, "an int"), ("NF", "", 2.5, "a float"), ("NZ", "m", 0.0, "zero"), ("NE", "k", "", "empty with unit"), ("TX", "", "12,5W", "text with a comma")]
 
 
@@ -139,7 +158,24 @@ def harness(ns, params):
         obl = W.sections_equal(got, exp, mnemonic_case=mcase, skip=())  # exp is the post-write state, so STRT/STOP/STEP are comparable too
         obl = [(n, c) for n, c in obl if not (n.startswith("Version[0]-descr"))]
         core.oblige_all(obl)
-        return {"observed": {"raised": None, "nlines": len(lines)}}
+        # second cycle: the object the reader produced (case-mapped session names, reader-typed values)
+        # is written again and read back as spelt
+        try:
+            lines2 = W.write_lines(ns, las2, version=version)
+        except Exception as e:
+            core.oblige("write-of-the-read-object-does-not-raise", False, info=repr(e)[:200])
+            return {"observed": {"raised": "write2:" + type(e).__name__}}
+        las3 = ns.las.LASFile()
+        try:
+            las3.read(SymFile(lines2), mnemonic_case="preserve", engine="normal")
+        except Exception as e:
+            core.oblige("second-written-file-is-readable", False, info=repr(e)[:200])
+            return {"observed": {"raised": "read2:" + type(e).__name__}}
+        obl2 = W.sections_equal(W.snapshot_sections(las3), exp, mnemonic_case=mcase, skip=())
+        # the writer replaces the VERS item by its standard line (upper-case name, standard description)
+        core.oblige_all([("cycle2-" + n, c) for n, c in obl2 if not n.startswith(("Version[0]-descr", "Version[0]-mnemonic"))])
+        core.witness("second-cycle-compared")
+        return {"observed": {"raised": None, "nlines": len(lines), "nlines2": len(lines2)}}
 
     return run
 
@@ -181,5 +217,19 @@ def replay(i):
     got = W.snapshot_sections(las2)
     obl = W.sections_equal(got, exp, mnemonic_case=mcase, skip=())  # exp is the post-write state, so STRT/STOP/STEP are comparable too
     bad = [n for n, c in obl if not n.startswith("Version[0]-descr") and not bool(c)]
+    text2 = None
+    if not bad:
+        out2 = io.StringIO()
+        try:
+            las2.write(out2, version=version)
+            text2 = out2.getvalue()
+            las3 = lasio.read(text2, mnemonic_case="preserve", engine="normal")
+        except Exception as e:
+            return {"ok": False, "detail": "second cycle (write of the object read with mnemonic_case=%s, read back) raised %r; first text:\n%s" % (mcase, e, text[:1200]), "observed": {"raised": ("write2:" if text2 is None else "read2:") + type(e).__name__}}
+        obl2 = W.sections_equal(W.snapshot_sections(las3), exp, mnemonic_case=mcase, skip=())
+        bad = ["cycle2-" + n for n, c in obl2 if not n.startswith(("Version[0]-descr", "Version[0]-mnemonic")) and not bool(c)]
+        if bad:
+            return {"ok": False, "detail": "differences %r after the second cycle; item (%r,%r,%r,%r) in ~%s; second text (version %s):\n%s\nread back: %r" % (bad, i["m"], i["u"], i["v"], i["d"], section, version, "\n".join(l for l in text2.splitlines() if not l[:1].isdigit())[:1500], W.snapshot_sections(las3).get(W.SECTIONS[section])),
+                    "observed": {"raised": None, "nlines": len(text.splitlines()), "nlines2": len(text2.splitlines())}}
     return {"ok": not bad, "detail": "ok" if not bad else "differences %r; item (%r,%r,%r,%r) in ~%s written (version %s) as:\n%s\nread back (mnemonic_case=%s): %r" % (bad, i["m"], i["u"], i["v"], i["d"], section, version, "\n".join(l for l in text.splitlines() if not l[:1].isdigit())[:1500], mcase, got.get(W.SECTIONS[section])),
-            "observed": {"raised": None, "nlines": len(text.splitlines())}}
+            "observed": dict({"raised": None, "nlines": len(text.splitlines())}, **({"nlines2": len(text2.splitlines())} if text2 is not None else {}))}
